@@ -85,9 +85,17 @@ func readDiffGuard(text string) (jd.Diff, drive.Res) {
 func driveCR(p *Plan, shard int, w *Writer, t *codec.Table) {
 	v := drive.NewV2(t)
 	targets := crashTargets()
-	quick := true
+	quick, tiny := true, false
 	if s, ok := p.Extra["tier"].(string); ok && s == "thorough" {
 		quick = false
+	} else if ok && s == "selftest" {
+		tiny = true
+	}
+	scale := func(n int) int {
+		if tiny {
+			return n / 50
+		}
+		return n
 	}
 	id := 0
 	own := func() bool { id++; return id%p.Shards == shard }
@@ -127,14 +135,14 @@ func driveCR(p *Plan, shard int, w *Writer, t *codec.Table) {
 		for j := range kinds {
 			lineSession([]codec.Line{kinds[i], kinds[j]})
 			for k := range kinds {
-				if quick && !keep(p.Seed, 0.12, "l3", i, j, k) {
+				if quick && !keep(p.Seed, map[bool]float64{false: 0.12, true: 0.002}[tiny], "l3", i, j, k) {
 					continue
 				}
 				lineSession([]codec.Line{kinds[i], kinds[j], kinds[k]})
 			}
 		}
 	}
-	nlong := 6000
+	nlong := scale(6000)
 	if !quick {
 		nlong = 120000
 	}
@@ -152,6 +160,9 @@ func driveCR(p *Plan, shard int, w *Writer, t *codec.Table) {
 	fw := 0.08
 	if !quick {
 		fw = 1.0
+	}
+	if tiny {
+		fw = 0.002
 	}
 	for hi := range wild {
 		if !keep(p.Seed, fw, "wild", hi) {
@@ -207,13 +218,13 @@ func driveCR(p *Plan, shard int, w *Writer, t *codec.Table) {
 	for i := range ops {
 		opSession([]codec.Op{ops[i]})
 		for j := range ops {
-			if quick && !keep(p.Seed, 0.5, "o2", i, j) {
+			if quick && !keep(p.Seed, map[bool]float64{false: 0.5, true: 0.01}[tiny], "o2", i, j) {
 				continue
 			}
 			opSession([]codec.Op{ops[i], ops[j]})
 		}
 	}
-	nops := 8000
+	nops := scale(8000)
 	if !quick {
 		nops = 150000
 	}
@@ -250,7 +261,7 @@ func driveCR(p *Plan, shard int, w *Writer, t *codec.Table) {
 		})
 	}
 	alphabet := []byte("{}[]\",:-+@^ \n0123456789.eE\\/~ntu\x00\xff")
-	nmut := 400
+	nmut := scale(400)
 	if !quick {
 		nmut = 6000
 	}
